@@ -2,12 +2,14 @@ import NxProofs.MiscMii
 import NxProofs.MiscCrc
 import NxProofs.MiscBase64
 import NxProofs.MiscAuth
+import NxProofs.MiscAuthClients
 /-!
 # C19 — request authentication codes and auxiliary codecs
 
 Models: `NxModel/Misc/Mii.lean` (MiiData build/parse over the 68-attribute layout, `swap_endian`),
 `NxModel/Misc/BitStream.lean` (anynet bit streams), `NxModel/Crypto/Crc16.lean` (both CRCs),
-`NxModel/Crypto/Base64.lean`, `NxModel/Misc/Auth.lean` (dauth MAC, aauth envelope, hpp, nnas, nasc, prodinfo).
+`NxModel/Crypto/Base64.lean`, `NxModel/Misc/Auth.lean` (dauth MAC, aauth envelope, hpp, nnas, nasc, prodinfo),
+`NxModel/Misc/AuthClients.lean` (HppClient / DAuthClient as objects driven through operation sequences).
 Statements only; proofs in `NxProofs/Misc*.lean`.
 
 What is a theorem here: the inverse pairs (every encoder is inverted by its decoder; a Mii built from any
@@ -118,6 +120,68 @@ theorem hpp_response_accepted (callId method : Nat) (resp body : Bytes)
     ∃ size s1 flag s2 s3 s4, rdU32 resp = .ok (size, s1) ∧ size = s1.length ∧ rdU8 s1 = .ok (flag, s2) ∧ flag ≠ 0 ∧
       rdU32 s2 = .ok (callId, s3) ∧ rdU32 s3 = .ok (method ||| 0x8000, s4) ∧ body = s4 :=
   hppValidate_body callId method resp body h
+
+/-! ## one client object, a sequence of operations
+
+The authentication codes above are functions of their inputs; the library's clients are objects whose inputs are
+knobs (the shared `Settings` object, `pid`, `password`, the `keys` dict, the system version, …) that may be turned
+between two requests. The object models read every knob at request time, as `hpp.py` / `dauth.py` do; the harness
+drives ONE real object and the model through the same sequence (`hpp-walk`, `dauth-walk`) and compares every request.
+What the theorems add: in the model a request after ANY history is authenticated with the current values. -/
+
+/-- the request issued after an arbitrary history of knob changes and earlier requests carries the signatures
+    for the access key / password / pid the client has NOW, the current call id, and advances the counter mod 2^32 -/
+theorem hpp_request_after_any_history (c : HppClient) (ops : List HppOp) (data : Bytes) :
+    hppRun c (ops ++ [.request data]) =
+      ({ (hppRun c ops).1 with callId := ((hppRun c ops).1.callId + 1) % 2 ^ 32 },
+       (hppRun c ops).2 ++ [hppSend (hppRun c ops).1 data]) :=
+  hppRun_then_request c ops data
+
+/-- … which is exactly what a freshly constructed client with those values sends -/
+theorem hpp_reused_client_eq_fresh (c : HppClient) (ops : List HppOp) (data : Bytes) :
+    hppSend (hppRun c ops).1 data =
+      hppSend { HppClient.fresh (hppRun c ops).1.accessKey (hppRun c ops).1.password (hppRun c ops).1.pid with
+                callId := (hppRun c ops).1.callId } data :=
+  hppSend_eq_fresh _ data
+
+/-- the last write to a knob is the value in force (the other knobs keep theirs) -/
+theorem hpp_last_write_wins (c : HppClient) (ops : List HppOp) (k p : Bytes) (n : Nat) :
+    (hppRun c (ops ++ [.setAccessKey k])).1 = { (hppRun c ops).1 with accessKey := k } ∧
+    (hppRun c (ops ++ [.setPassword p])).1 = { (hppRun c ops).1 with password := p } ∧
+    (hppRun c (ops ++ [.setPid n])).1 = { (hppRun c ops).1 with pid := n } :=
+  ⟨hppRun_setAccessKey c ops k, hppRun_setPassword c ops p, hppRun_setPid c ops n⟩
+
+/-- `keys[name] = value` is seen by the next lookup of `name` and by no other lookup -/
+theorem dict_last_write_wins (d : Dict) (k k' v : Bytes) :
+    dictGet (dictSet d k v) k = .ok v ∧ (k' ≠ k → dictGet (dictSet d k v) k' = dictGet d k') :=
+  ⟨dictGet_dictSet_same d k v, dictGet_dictSet_other d k k' v⟩
+
+/-- a token request after an arbitrary history is answered from the current state of the DAuthClient -/
+theorem dauth_token_after_any_history (c : DAuthClient) (ops : List DAuthOp) (e : Bool) (ch : Bytes)
+    (dt : List Nat) (cid : Nat) (v : Bytes) :
+    dauthRun c (ops ++ [.token e ch dt cid v]) =
+      ((dauthRun c ops).1, (dauthRun c ops).2 ++ [.token ((dauthRun c ops).1.token e ch dt cid v)]) :=
+  dauthRun_then_token c ops e ch dt cid v
+
+/-- after `set_system_version` the MAC comes from the master key of the NEW key generation -/
+theorem dauth_mac_follows_version_switch (c : DAuthClient) (g : Nat) (d : Bytes) (a : Bool) (form data kek mk : Bytes)
+    (h1 : dictGet c.keys (ascii "aes_kek_generation_source") = .ok kek)
+    (h2 : dictGet c.keys (masterKeyName g) = .ok mk) :
+    (dauthRun c [.setVersion g d a, .mac form data]).2 = [.mac (dauthMac kek mk data form)] :=
+  dauth_mac_after_setVersion c g d a form data kek mk h1 h2
+
+/-- after the master key in use is replaced in the dict the MAC comes from the NEW key -/
+theorem dauth_mac_follows_key_replacement (c : DAuthClient) (mk form data kek : Bytes)
+    (h1 : dictGet c.keys (ascii "aes_kek_generation_source") = .ok kek) :
+    (dauthRun c [.setKey (masterKeyName c.keygen) mk, .mac form data]).2 = [.mac (dauthMac kek mk data form)] :=
+  dauth_mac_after_setKey_master c mk form data kek h1
+
+example : (hppRun (HppClient.fresh [1] [2] 3) [.request [9], .setPid 7, .setCallId (2 ^ 32 - 1), .request [9]]).1
+    = ⟨[1], [2], 7, 0⟩ := by decide
+example : dictGet (dictSet [([1], [2]), ([3], [4])] [3] [5]) [3] = .ok [5] := by decide
+example : dictGet (dictSet [([1], [2])] [3] [5]) [1] = .ok [2] := by decide
+example : dictGet ([] : Dict) [1] = .error .key := by decide
+example : dictGet [(ascii "aes_kek_generation_source", [7])] (ascii "aes_kek_generation_source") = .ok [7] := by decide +kernel
 
 /-
 NOT theorems (stated here so the gap is visible): "`dauthMac`, `aauthEnvelope`, `hppSignatures`, `nnasHash`,
